@@ -957,7 +957,7 @@ def corpus_case(path):
     """worker: one corpus .fea file -> trace dict"""
     from fontTools.feaLib.error import FeatureLibError
 
-    rel = common.rel(path)
+    rel = common.rel(path) if os.sep + "extra-fea" + os.sep not in path else "extra-fea/" + os.path.basename(path)
     base = test_glyph_order()
     try:
         try:
